@@ -783,6 +783,8 @@ def run_impl(ctx, cases, B=400):
 
 def run(ctx):
     ctx.obligations_stage(PROPS, extra_targets=['C16/Examples.vo', 'C16/Cases.vo'])
+    # theorems over mathcomp's algebraic hierarchy (bridge file, ssreflect style)
+    ctx.obligations_stage('C16/PropsField.v', extra_targets=['C16/ExamplesField.vo'])
     ctx.assumptions += [
         'model: hand transcription of apply_tprod/_modek_tensordot_sparse/modek_tprod (tensor.py), '
         '_apply_kronecker_dense/_apply_kronecker_linops/apply_kronecker (kronecker.py), KroneckerOperator dispatch, '
@@ -940,7 +942,7 @@ META = {
                  'sum algebra, ravel/unravel index arithmetic) + exact integer correspondence of every operator class with '
                  'the implementation evaluated by vm_compute + dense-definition oracle on the implementation + exact residual '
                  'bounds for the solver factories',
-    'level_text': 'Theorems (Coq, unbounded, any commutative ring; 37 theorems, all closed under the global context; in addition to the list below: grid_block_transpose_full, kron_reduce_spec (left-nested reduce(np.kron) = kron_ent), lap_code_spec, diag_code_spec, fastdiag_inverts_multi, fastdiag_inverts_code[_multi] about the expressions the code builds): apply_tprod '
+    'level_text': 'Theorems (Coq, unbounded, any commutative ring; 43 theorems (39 in Props.v, 4 in PropsField.v over mathcomp comRingType), all closed under the global context; apply_kronecker_spec[_multi] (its own dispatch); left_inverse_is_right_inverse, eigh_contract_suffices, fastdiag_inverts_eigh[_multi] (fastdiag from the contract eigh actually provides, U^T M U = I); in addition to the list below: grid_block_transpose_full, kron_reduce_spec (left-nested reduce(np.kron) = kron_ent), lap_code_spec, diag_code_spec, fastdiag_inverts_multi, fastdiag_inverts_code[_multi] about the expressions the code builds): apply_tprod '
                   'computes Y[a,t] = sum_J prod_k B_k[a_k,j_k] X[J,t] for any number of operands, dense (tensordot) and '
                   'sparse/LinearOperator (_modek_tensordot_sparse) branches, rectangular shapes, None placeholders, trailing axes '
                   '(apply_tprod_spec, modek_sparse_spec, kron_core_spec); _apply_kronecker_dense equals the flat np.kron matrix times x '
@@ -956,8 +958,7 @@ META = {
                   'make_kronecker_solver applies the inverse of kron(B_k) given B_k.Binv_k = I, vectors and several right-hand sides '
                   '(kron_solver_inverts[_multi], mixed-product property kron_ent_mul); fastdiag_solver applies the inverse of the '
                   'Kronecker-sum matrix in ANY dimension given the eigh contract K U = M U Lambda, (M U) U^T = I (fastdiag_inverts, vectors). '
-                  'NOT theorems: fastdiag for several right-hand sides, equality of the code\'s left-nested eigenvalue-sum/Kronecker-sum with '
-                  'the recursive forms used in fastdiag_inverts, the LAPACK/SuperLU/eigh contracts themselves. The model is tied to /repo by '
+                  'NOT theorems: the LAPACK/SuperLU/eigh contracts themselves (residual check only); fastdiag_apply is not in the correspondence case files; complex adjoints. The model is tied to /repo by '
                   '~1100 (thorough ~4500) random integer cases over all operator classes, storage kinds and argument forms compared exactly '
                   'inside Coq and against np.kron/np.block/...; operands are compared bitwise with snapshots; solver factories are checked by '
                   'exactly computed residuals (shared array objects, C/F/transposed layouts) against a stated bound.',
